@@ -80,7 +80,8 @@ def targs_of(node):
     for c in node.get("inner", []):
         if c.get("kind") == "TemplateArgument":
             if "type" in c:
-                out.append(c["type"].get("desugaredQualType") or c["type"]["qualType"])
+                out.append((c["type"].get("desugaredQualType") or c["type"]["qualType"]).replace(
+                    "opentelemetry::v1::", "").replace("opentelemetry::", ""))
             elif "value" in c:
                 out.append(str(c["value"]))
             else:
@@ -228,7 +229,8 @@ class Index:
                     np = sum(1 for c in d.get("inner", []) if c.get("kind") == "ParmVarDecl")
                     if nparams is not None and np != nparams:
                         continue
-                    if sig is not None and sig not in d.get("type", {}).get("qualType", ""):
+                    if sig is not None and sig not in d.get("type", {}).get("qualType", "").replace(
+                            "opentelemetry::v1::", "").replace("opentelemetry::", ""):
                         continue
                     cands.append((q, d))
         # drop duplicates (same node seen twice)
